@@ -89,6 +89,9 @@ pub fn lll(basis: &[Vec<f64>]) -> (Vec<Vec<f64>>, Vec<Vec<BigInt>>) {
                     h[k][u] -= tmp;
                 }
                 mu[k][l] -= qr;
+                for i in 0..l {
+                    mu[k][i] -= qr * mu[l][i];
+                }
             }
         };
     }
